@@ -52,11 +52,11 @@ type Solver struct {
 	log       io.Writer
 	dead      bool
 	asserted  []*Term // assertions since the last Reset (replayed after a restart)
-	kz        map[int]uint64
+	tb        *TB
 }
 
-func NewSolver(kind string, intMode bool, timeoutMs int) (*Solver, error) {
-	s := &Solver{kind: kind, intMode: intMode, timeoutMs: timeoutMs}
+func NewSolver(kind string, intMode bool, timeoutMs int, tb *TB) (*Solver, error) {
+	s := &Solver{kind: kind, intMode: intMode, timeoutMs: timeoutMs, tb: tb}
 	if err := s.start(); err != nil {
 		return nil, err
 	}
